@@ -9,6 +9,7 @@ Correspondence: every scenario calls the real estimator (overlay build of /repo'
                                   and verified there before use)
   spec line `c14.spec_nonexp`  -> one more round never increases the sup-distance to the harmonic extension
   spec line `c14.spec_forms`   -> the same temperatures as ndarray, list and dict give the same output
+  run/spec `c14.normalize`, `c14.spec_stochastic` -> `normalize(matrix)` itself: stored entries, rows of L1 norm 1 or null
 Theorems (SkNet/Properties/C14.lean) are about the same model for every graph and every number of rounds.
 """
 import json
@@ -319,6 +320,27 @@ def make_form(kind, n, seeds, rng=None, filler=-1):
     return ['dict', items]
 
 
+def normalize_case(a):
+    """`normalize(matrix)` observed directly: run line (stored entries of every row) + the stochastic clause."""
+    from sknetwork.linalg.normalizer import normalize
+    a = sparse.csr_matrix(a)
+    sc = scenario('dirichlet', a)
+    g = enc_sc_matrix(sc)
+    try:
+        with warnings.catch_warnings():
+            warnings.simplefilter('ignore')
+            q = sparse.csr_matrix(normalize(a.copy()))
+        q.sum_duplicates()
+        q.sort_indices()
+        impl = 'ok %s %s %s' % (enc_list(q.indptr), enc_list(q.indices), enc_ratlist(Fraction(float(x)) for x in q.data))
+        spec = 'c14.spec_stochastic %s %s %s' % (g, enc_rat(TOL), impl[3:])
+        ctx_count('spec:stochastic')
+    except (ValueError, IndexError, TypeError, ZeroDivisionError) as e:
+        impl, spec = 'err ' + type(e).__name__, None
+    return Case(('normalize', g), {'entry': 'normalize', 'clause': 'row-stochastic'}, 'c14.normalize ' + g, impl, spec,
+                a.nnz > 0, {'kind': 'normalize', 'scenario': sc}, canon='normalize')
+
+
 def harmonic_cases(sc, rng, with_nonexp=True):
     """Dirichlet after many rounds against the harmonic extension; the number of rounds is raised until two runs agree
     (only to choose it: the judgement is the exact solution computed and verified in Lean)."""
@@ -366,6 +388,11 @@ def _same(c, model, impl, spec_ok):
     if model.startswith('err') or impl.startswith('err'):
         return model == impl
     mt, it = model.split(' '), impl.split(' ')
+    if c.canon == 'normalize':
+        if len(mt) != 4 or len(it) != 4 or mt[1] != it[1] or mt[2] != it[2]:
+            return False
+        x, y = dec_ratlist(mt[3]), dec_ratlist(it[3])
+        return len(x) == len(y) and all(_close(p, q) for p, q in zip(x, y))
     if len(mt) != 4 or len(it) != 4 or mt[0] != 'ok' or it[0] != 'ok':
         return False
     for a, b in zip(mt[1:], it[1:]):
@@ -582,6 +609,22 @@ def build_cases(ctx):
     scs += deg
     for sc in scs:
         cases.append(case_of(sc))
+    # 5b. `normalize` observed directly on the matrices above (each distinct matrix once) and on signed / zero data
+    seen = set()
+    for sc in scs:
+        k = (tuple(sc['shape']), tuple(sc['indptr']), tuple(sc['indices']), tuple(sc['data']))
+        if k in seen or len(seen) >= (400 if quick else 4000):
+            continue
+        seen.add(k)
+        cases.append(normalize_case(sc_matrix(sc)))
+    for _ in range(30 if quick else 300):
+        nr, nc = rng.randint(1, 5), rng.randint(1, 5)
+        dense = [[rng.choice([0, 0, 1, 2, -1, -3, 0.5]) for _ in range(nc)] for _ in range(nr)]
+        m = sparse.csr_matrix(np.array(dense, dtype=float))
+        if m.nnz and rng.random() < 0.5:
+            m.data[rng.randrange(m.nnz)] = 0.0        # an explicit zero
+        cases.append(normalize_case(m))
+        ctx.count('normalize:signed/zero')
     # 6. input forms
     pool = [sc for sc in scs if sc['values'] is not None and not is_bipartite(sc) and abstract_seeds(sc)]
     for sc in rng.sample(pool, min(len(pool), 60 if quick else 600)):
@@ -652,6 +695,8 @@ def harmonic_suite(ctx, rng, quick, small_only=False):
 def cases_of_desc(desc, rng):
     kind = desc.get('kind')
     sc = desc['scenario']
+    if kind == 'normalize':
+        return [normalize_case(sc_matrix(sc))]
     if kind == 'forms':
         sbs = {k: (v[0], {int(a): b for a, b in v[1]}) for k, v in desc['seeds_by_side'].items()}
         return [forms_case(sc, sbs)]
